@@ -13,8 +13,7 @@ use hickory_proto::rr::{DNSClass, Name, Record};
 use crate::alphabet::{hn, wn};
 
 /// EDNS variants: empty, every option kind the build models, two options, non-default fixed fields.
-/// `rcode_high` is left 0; callers set it to the high bits of the message's response code (the
-/// encoder overwrites it with exactly that value).
+/// `rcode_high` is left 0: it is a derived field that the encoder fills from the header's response code.
 pub fn edns_variants() -> Vec<(&'static str, Edns)> {
     let mut out = vec![];
     out.push(("empty", Edns::new()));
@@ -25,6 +24,13 @@ pub fn edns_variants() -> Vec<(&'static str, Edns)> {
     e.set_max_payload(65535).set_version(255);
     e.flags_mut().z = 0x7fff;
     out.push(("version255-z7fff-65535", e));
+    let mut e = Edns::new();
+    e.set_dnssec_ok(true);
+    e.flags_mut().z = 1;
+    out.push(("do-z1", e));
+    let mut e = Edns::new();
+    e.options_mut().insert(EdnsOption::Subnet(ClientSubnet::new(IpAddr::V4(Ipv4Addr::new(192, 0, 16, 0)), 20, 0)));
+    out.push(("ecs-v4-20", e));
     let mut e = Edns::new();
     let mut algs = SupportedAlgorithms::new();
     algs.set(Algorithm::ECDSAP256SHA256);
